@@ -1,15 +1,18 @@
 CONFIG = {
-    "lean_modules": ["BsVerif.Props.C08"],
-    "audit": "BsVerif/Audit/C08.lean",
+    "lean_modules": ["BsVerif.Props.C08", "BsVerif.Props.C08Dap"],
+    "audit": ["BsVerif/Audit/C08.lean", "BsVerif/Audit/C08Dap.lean"],
     "bsv_cmd": "c08",
+    # request files whose first line belongs to the DAP leg (area id C08D) are executed by the sub-command c08dap
+    "area_cmds": {"C08D": "c08dap"},
     # which setting of the model's `Quirks` the current tree is compared with: "asfound" (numeric tokens converted with
     # unwrapped()/unwrap(), unchecked slice arithmetic) or "repaired" (after the `try_map` / bounds repair)
     "bsv_extra": ["--quirks", "asfound"],
     "technique": "Lean 4 totality / in-bounds proofs about a PEG model of the console command grammar (numeric tokens with Rust overflow semantics), the slice/index arithmetic and the decoder reads + differential correspondence of outcome classes (ok/err/panic site/abort) with the real code under catch_unwind (parser in-process, slices on a live debuggee in forked workers)",
     "level_text": "Proved in Lean for all inputs: exactness of the numeric conversions (C08_num_conv_exact: checked multiply-add = mathematical value iff in range, any radix/width/digit string), panic-freedom of the command parser model for every string in the repaired setting (C08_cmd_total_repaired) and, as found, for every line whose numeric tokens are in range (C08_cmd_total_partial, decidable predicate) with the refutation of the full statement on `break remove 4294967296` (C08_cmd_total_counterexample); slice arithmetic total within left<=len, left<=right (C08_slice_total_partial), results are in-bounds contiguous runs (C08_slice_in_bounds), pointer-slice reads stay in the requested range (C08_ptr_slice_total_partial), member extraction inside the fetched bytes for every layout whose members lie inside the struct (C08_decode_in_bounds) with a model-level counterexample for DW_ATE_UTF of size 2. The model is tied to the code on every run by executing the same grammar-derived, mutated and garbage command lines through Command::parse and the same slice/index queries through Debugger::read_variable on a live debuggee and comparing outcome classes.",
-    "level_note": "Partial: the unchanged tree panics (9 classes reproduced, see known_findings.txt), so the full statements are proved only for the model's repaired setting. Trusted: Lean kernel + 3 standard axioms; chumsky's combinator semantics read as a PEG (sampled by the correspondence run, exact ok/err agreement); ASCII restriction of Unicode identifier classes; tie is sampling. Not covered: DAP messages (C12's agent), hashbrown/B-tree walks, decoder reads on the real code (model + theorem only; needs `verif::probe` hooks).",
-    "runs": {"quick": [{"n": 6000, "timeout": 900}], "thorough": [{"n": 150000, "timeout": 3000}]},
-    "trivial_answers": ["ok", "-", "bad-op", "", "nopanic"],
+    "level_note": "Partial: the unchanged tree panics (9 classes reproduced, see known_findings.txt), so the full statements are proved only for the model's repaired setting. Trusted: Lean kernel + 3 standard axioms; chumsky's combinator semantics read as a PEG (sampled by the correspondence run, exact ok/err agreement); ASCII restriction of Unicode identifier classes; tie is sampling. DAP leg (Props/C08Dap.lean, harness c08dap): argument decoding and string/number handling of all 43 request handlers up to the first call into the debugger, tied per message (outcome class incl. the rejection site); what the debugger answers after that is taken from the wire. Not covered: hashbrown/B-tree walks, decoder reads on the real code (model + theorem only; needs `verif::probe` hooks).",
+    "runs": {"quick": [{"n": 6000, "timeout": 900}, {"cmd": "c08dap", "n": 900, "timeout": 2400}],
+             "thorough": [{"n": 150000, "timeout": 3000}, {"cmd": "c08dap", "n": 9000, "timeout": 12000}]},
+    "trivial_answers": ["ok", "-", "bad-op", "", "nopanic", "closed", "ignored"],
     "assumptions": [
         "chumsky 0.10 combinators are a PEG: ordered choice commits to the first success, repetition is greedy, `unwrapped()` panics only in emit mode (all numeric tokens of the grammar are in emit mode)",
         "input is ASCII (text::ident() uses Unicode XID classes; the model uses their ASCII restriction)",
@@ -17,6 +20,6 @@ CONFIG = {
         "allocation requests above 2^47 bytes fail (abort), requests up to 64 KiB succeed; nothing in between is generated",
         "the debuggee's stack pointer variable lies in [4096, 2^47)",
     ],
-    "uncovered": ["DAP message totality (C08_dap_total): not modelled here", "decoder reads on the real code (scalar_from_bytes / StructureMember::value): theorem + model only, no probe hook yet",
+    "uncovered": ["DAP: what the debugger does after the arguments are decoded (evaluation, stepping, memory access) is not modelled: there the run itself is the search (any panic / death / hang is an oracle failure); array-shaped request envelopes, unparsable JSON text (transport), `attach` to an existing process, `runInTerminal` of an existing program, signals to existing thread ids are never generated", "decoder reads on the real code (scalar_from_bytes / StructureMember::value): theorem + model only, no probe hook yet",
                   "hashbrown / B-tree walks on arbitrary memory (C08_decode_terminates)", "Unicode identifiers / Unicode white space in command lines", "command lines longer than ~300 characters; deep nesting (stack overflow of the recursive-descent parser) is not explored"],
 }
